@@ -143,7 +143,11 @@ func C17(run *hx.Run) {
 					continue
 				}
 				ref := j.o.run(h, 0)
-				if ref.err != nil || ref.panicMsg != "" {
+				if ref.panicMsg != "" {
+					run.Violation("C17/"+j.o.kind+"/"+pmKind(ref.panicMsg), fmt.Sprintf("%s on %s (full run, no stop): %s", j.o.name, j.name, firstLines(ref.panicMsg, 2)), nil)
+					continue
+				}
+				if ref.err != nil {
 					run.Count("ops_failing_unstopped", 1)
 					continue
 				}
@@ -206,7 +210,7 @@ func C17(run *hx.Run) {
 					detail := hx.M{"db": j.name, "op": j.o.name, "k": k, "result_size": n, "position": why}
 					switch {
 					case res.panicMsg != "":
-						run.Violation(key+"/panic", fmt.Sprintf("%s stop at %d: panic %s", j.o.name, k, res.panicMsg), detail)
+						run.Violation(key+"/"+pmKind(res.panicMsg), fmt.Sprintf("%s stop at %d: %s", j.o.name, k, firstLines(res.panicMsg, 2)), detail)
 					case res.err != nil:
 						run.Violation(key+"/error", fmt.Sprintf("%s on %s: stopping at row %d of %d (%s) returned error %v", j.o.name, j.name, k, n, why, res.err), detail)
 					case res.callbacks != k:
